@@ -9,9 +9,12 @@ Variable truthy : val -> bool.
 Variable poll : st -> st * option val.
 Variable recatch : val -> val.
 Variable veq : val -> val -> bool.
+Variable enum : st -> expr -> st * (list (list val) + val).
+Variable live : st -> val -> bool.
+Variable bind : st -> expr -> val -> st * option val.
 Notation stmt := (stmt expr).
-Notation exec_o := (exec_o eval truthy poll recatch veq).
-Notation exec_s := (exec_s eval truthy poll recatch veq).
+Notation exec_o := (exec_o eval truthy poll recatch veq enum live bind).
+Notation exec_s := (exec_s eval truthy poll recatch veq enum live bind).
 
 Definition conv (LS : list label) (c : compl val) : compl val :=
   match c with CBreak t => if mem t LS then CNormal else c | _ => c end.
@@ -180,6 +183,20 @@ Proof.
   destruct (truthy v); [apply Hrun|exact I].
 Qed.
 
+Lemma nj_skeys t (exec : st -> list label -> stmt -> st * sres val) tgt body :
+  (forall s0 LS x, In x body -> nj_s t (snd (exec s0 LS x))) ->
+  forall ks labels s0, nj_s t (snd (skeys live bind exec labels tgt body ks s0)).
+Proof.
+  intros H. induction ks as [|k ks IH]; intros labels s0; cbn [skeys]; [exact I|].
+  destruct (live s0 k); [|apply IH].
+  destruct (bind s0 tgt k) as [s1 [x|]]; [exact I|].
+  pose proof (nj_slist t exec body H s1) as Hb.
+  destruct (slist exec s1 body) as [s2 [c|]]; simpl in *; [|exact I].
+  destruct c; simpl in *; try exact I; try apply IH.
+  - destruct (mem l labels); simpl; [exact I|assumption].
+  - destruct (mem l labels); simpl; [apply IH|assumption].
+Qed.
+
 Lemma nj_scatch t blk r1 c :
   nj_s t (snd r1) -> (forall cb s0, c = Some cb -> nj_s t (snd (blk s0 cb))) ->
   nj_s t (snd (scatch (val:=val) (expr:=expr) (st:=st) recatch blk r1 c)).
@@ -242,6 +259,9 @@ Proof.
     destruct (slist (exec_s fuel) s2 (body_from cases i)) as [s3 [c|]]; simpl in *; [|exact I].
     destruct c; simpl in *; try exact I; try assumption.
     destruct (mem l (LS ++ [0])); simpl; [exact I|assumption].
+  - rewrite targets_forin in Ht.
+    destruct (enum s0 src) as [s1 [lv|x]]; [|exact I].
+    apply nj_skeys. intros; apply IH. eapply targets_list_false; eauto.
 Qed.
 
 (* ------------------------------------------------------------------ *)
@@ -620,6 +640,83 @@ Proof.
       destruct (poll s0) as [s'' [x|]]; [repeat split; simpl; reflexivity|apply Hgo].
 Qed.
 
+(* ---- for-in: otto's two nested loops (prototype chain outside, names inside) are one flat enumeration ---- *)
+Section ForIn.
+Variable exec : st -> list label -> stmt -> st * list label * ores val.
+Fixpoint oflat (labels : list label) (tgt : expr) (body : list stmt) (ks : list val)
+         (s : st) (L : list label) (acc : oval val) : st * list label * ores val :=
+  match ks with
+  | [] => (s, L, ONorm acc)
+  | k :: ks' =>
+    if live s k then
+      match bind s tgt k with
+      | (s1, Some x) => (s1, L, OExn x)
+      | (s1, None) =>
+        match olist exec s1 L OEmpty body with
+        | (s2, L2, ONorm o) =>
+          match o with
+          | OBrk t => if mem t labels then (s2, L2, ONorm acc) else (s2, L2, ONorm o)
+          | OCont t => if mem t labels then oflat labels tgt body ks' s2 L2 acc else (s2, L2, ONorm o)
+          | ORet _ => (s2, L2, ONorm o)
+          | OEmpty => oflat labels tgt body ks' s2 L2 acc
+          | OVal _ => oflat labels tgt body ks' s2 L2 o
+          end
+        | r => r
+        end
+      end
+    else oflat labels tgt body ks' s L acc
+  end.
+
+Lemma oflat_app labels tgt body rest : forall ks s L acc,
+  oflat labels tgt body (ks ++ rest) s L acc =
+  match okeys live bind exec labels tgt body ks s L acc with
+  | (r, true) => r
+  | ((s', L', ONorm acc'), false) => oflat labels tgt body rest s' L' acc'
+  | (r, false) => r
+  end.
+Proof.
+  induction ks as [|k ks IH]; intros s L acc; cbn [app oflat okeys]; [reflexivity|].
+  destruct (live s k); [|apply IH].
+  destruct (bind s tgt k) as [s1 [x|]]; [reflexivity|].
+  destruct (olist exec s1 L OEmpty body) as [[s2 L2] [o|v|]]; try reflexivity.
+  destruct o as [|w|t|t|w]; try reflexivity; try apply IH.
+  - destruct (mem t labels); reflexivity.
+  - destruct (mem t labels); [apply IH|reflexivity].
+Qed.
+
+Lemma olevels_flat labels tgt body : forall lv s L acc,
+  olevels live bind exec labels tgt body lv s L acc = oflat labels tgt body (concat lv) s L acc.
+Proof.
+  induction lv as [|ks lv IH]; intros s L acc; cbn [olevels concat]; [reflexivity|].
+  rewrite oflat_app.
+  destruct (okeys live bind exec labels tgt body ks s L acc) as [[[s' L'] r] [|]]; [reflexivity|].
+  destruct r as [acc'|v|]; [apply IH|reflexivity|reflexivity].
+Qed.
+End ForIn.
+
+Lemma sim_flat fuel (IH : IHfuel fuel) tgt (body : list stmt) G LS :
+  wf_list body = true ->
+  (forall g, In g G -> targets_list g body = false) ->
+  forall ks s0 acc, is_res acc = false ->
+    simres0 LS (oflat (exec_o fuel) ((G ++ LS) ++ [0]) tgt body ks s0 [] acc)
+               (skeys live bind (exec_s fuel) (LS ++ [0]) tgt body ks s0).
+Proof.
+  intros Hwf HG. induction ks as [|k ks IHk]; intros s0 acc Hacc; cbn [oflat skeys].
+  - repeat split; simpl. destruct acc; simpl in *; try exact I; discriminate.
+  - destruct (live s0 k); [|apply IHk; assumption].
+    destruct (bind s0 tgt k) as [s1 [x|]]; [repeat split; simpl; reflexivity|].
+    pose proof (sim_list fuel IH body OEmpty s1 eq_refl Hwf) as Hs.
+    assert (Hnj : forall g, In g G -> nj_s g (snd (slist (exec_s fuel) s1 body))).
+    { intros g Hg. apply nj_slist_exec. auto. }
+    destruct (olist (exec_o fuel) s1 [] OEmpty body) as [[s2 L2] ro]. destruct (slist (exec_s fuel) s1 body) as [s2' rs].
+    destruct Hs as [Hst [Hrel HL]]. simpl in *. subst s2' L2.
+    pose proof (sim_loop_tail G LS s2 ro rs acc
+      (fun acc' => oflat (exec_o fuel) ((G ++ LS) ++ [0]) tgt body ks s2 [] acc')
+      (skeys live bind (exec_s fuel) (LS ++ [0]) tgt body ks s2) Hacc Hrel Hnj) as T.
+    destruct ro as [o|v'|]; destruct rs as [c|]; simpl in Hrel; try contradiction; apply T;
+      intros acc' Hacc'; apply IHk; assumption.
+Qed.
+
 Lemma pop_snoc (X : list label) t : pop (X ++ [t]) = X.
 Proof. unfold pop. destruct (X ++ [t]) eqn:E; [destruct X; discriminate|]. rewrite <- E. apply removelast_last. Qed.
 
@@ -638,7 +735,7 @@ Proof.
   { repeat split; simpl; try exact I. now left. }
   cbn [Sem.exec_o Sem.exec_s]. destruct (poll s00) as [s0 [xp|]].
   { repeat split; simpl; try reflexivity. now left. }
-  destruct s as [e|l|e s1 s2|e body|body e|init test upd body|l|l|e|l s|e|b c f|e cases]; cbn [Sem.exec_o Sem.exec_s].
+  destruct s as [e|l|e s1 s2|e body|body e|init test upd body|l|l|e|l s|e|b c f|e cases|tgt src body]; cbn [Sem.exec_o Sem.exec_s].
   - (* SExpr *)
     destruct (eval s0 e) as [s1 [v|x]]; repeat split; simpl; try exact I; try reflexivity; now left.
   - (* SBlock *)
@@ -771,6 +868,14 @@ Proof.
     + repeat split; simpl; try assumption. now right.
     + rewrite mem_app in E. apply orb_false_iff in E as [EL _].
       repeat split; simpl; try rewrite EL; try assumption. now right.
+  - (* SForIn *)
+    rewrite wf_forin in Hwf.
+    destruct (enum s0 src) as [s1 [lv|x]].
+    2:{ repeat split; simpl; try reflexivity. now right. }
+    rewrite olevels_flat.
+    destruct (sim_flat fuel IH tgt body G LS Hwf
+                (fun g Hg => eq_trans (eq_sym (targets_forin g tgt src body)) (HG g Hg)) (concat lv) s1 OEmpty eq_refl) as [H1 [H2 H3]].
+    repeat split; try assumption. now right.
 Qed.
 
 (* Top-level statement of the prototype theorem: a well-formed program run from rest. *)
